@@ -1653,6 +1653,68 @@ def rule_sections_consumed(model):
     return r
 
 
+def rule_contiguous_params(model):
+    r = RuleResult('C06.R14', 'the attribute parsers consume the attribute '
+                   'text from the left without gaps: their patterns are '
+                   'applied with match() at the current position, never '
+                   'with search / finditer / findall / split (which step '
+                   'over text that is no attribute -- malformed attributes '
+                   'would be accepted silently instead of raising '
+                   'ParseError)')
+    n = 0
+    for mod, name in (('DT_Util', 'parse_params'),
+                      ('DT_Let', 'parse_let_params')):
+        top = model.func(mod, name)
+        for f in model.closure(top):
+            # names bound to compiled patterns or their bound methods:
+            # parameter defaults, module-level names, locals
+            for c in own_nodes(f.node):
+                if not (isinstance(c, ast.Call) and isinstance(
+                        c.func, ast.Attribute)):
+                    continue
+                a = c.func.attr
+                if a not in ('match', 'fullmatch', 'search', 'finditer',
+                             'findall', 'split', 'sub', 'subn'):
+                    continue
+                recv = c.func.value
+                # string methods of the text itself (text.split()) are not
+                # pattern applications
+                is_pat = False
+                if isinstance(recv, ast.Name):
+                    d = model.param_default(f, recv.id)
+                    defs = [d] if d is not None else [
+                        x for x in model.local_defs(f, recv.id)
+                        if isinstance(x, ast.AST)]
+                    if not defs:
+                        g = model.resolve_global(f.module, recv.id)
+                        defs = list(g[1]) if g and g[0] == 'value' else []
+                    is_pat = any(isinstance(x, ast.Call) and
+                                 norm(x.func).endswith('compile')
+                                 for x in defs)
+                elif isinstance(recv, ast.Call) and \
+                        norm(recv.func).endswith('compile'):
+                    is_pat = True
+                elif norm(recv) == 're':
+                    is_pat = True
+                if not is_pat:
+                    continue
+                n += 1
+                ok = a in ('match', 'fullmatch')
+                r.instance(f.where, c, 'anchored at the cursor' if ok
+                           else 'STEPS OVER TEXT')
+                if not ok:
+                    r.finding(f.where, c, f'the attribute text is scanned '
+                              f'with {a}(): whatever stands between two '
+                              'recognised attributes is skipped, so '
+                              'malformed or unsupported attributes are '
+                              'accepted silently', node=c, ctx=f)
+    if n < 4:
+        raise AnalysisError(f'C06.R14: only {n} pattern applications found '
+                            'in the attribute parsers')
+    r.floor = 4
+    return r
+
+
 def _needs_registry(rule):
     """Everything except R6 depends on a resolvable tag registry."""
     def run(model):
@@ -1668,7 +1730,7 @@ def _needs_registry(rule):
 RULES = [rule_registry] + [_needs_registry(r_) for r_ in (
     rule_regex, rule_raise, rule_partial, rule_location, rule_recursion,
     rule_prefix_grammar, rule_block_context, rule_tag_resolution,
-    rule_single_descent)] + [rule_sections_consumed]
+    rule_single_descent)] + [rule_sections_consumed, rule_contiguous_params]
 EXPLANATION = (
     'Regex automata (EDA criterion on the self-product of the pattern NFA) '
     'for every constant pattern of the compile phase; raise/handler '
